@@ -7,7 +7,7 @@ from harness import c14_acct, c14_dense, c14_sched
 PROP = 'C14'
 MODEL_MODULES = ['TenpyModel.Util.J', 'TenpyModel.C14.Trotter', 'TenpyModel.C14.Accounting',
                  'TenpyModel.Gen.C14Trotter']
-PROPS_MODULES = ['TenpyModel.C14.PropsSchedule', 'TenpyModel.C14.PropsAccounting']
+PROPS_MODULES = ['TenpyModel.C14.PropsSchedule', 'TenpyModel.C14.PropsCompose', 'TenpyModel.C14.PropsAccounting']
 LEAN_MODULES = PROPS_MODULES
 LEVEL = 'proof'
 BUDGET = {'quick': 220, 'thorough': 1500}
@@ -19,8 +19,10 @@ RULE = ('(a) schedule: every order the source dispatches on (regenerated) x N_st
         'neighbour couplings, Sz conserved or not, finite L=4..8, infinite L=2,4 for TEBD), chi_max in {2,3,4} so that '
         'truncations are non-zero, a random composition of 2..9 steps into run() calls with a different dyadic dt per '
         'call, real and imaginary steps, non-zero start_time / start_trunc_err, 35% of the traces with the step errors '
-        'replaced by exact dyadic values (exact comparison); non-trivial when some truncation error is non-zero and '
-        'there are >=2 calls or the engine is time dependent; distinct by content hash. '
+        'replaced by exact dyadic values (exact comparison); ~6% each: RandomUnitaryEvolution (own evolve) and the '
+        'imaginary-time path of run_GS (calc_U(type_evo=imag) + update_imag), oracle only; after every call also the '
+        'total charge and psi.norm (real time: reset exactly) are checked; non-trivial when some truncation error is '
+        'non-zero and there are >=2 calls or the engine is time dependent; distinct by content hash. '
         '(c) dense: untruncated runs at dt, dt/2, dt/4 (total time split into two run() calls at a random point) vs '
         'scipy expm on the ExactDiag Hamiltonian; every TEBD order, one QR-TEBD order, imaginary time, TDVP, 4 (thorough: '
         'all 12) W_I/W_II x compression x order combinations, two time-dependent engines.')
